@@ -159,3 +159,30 @@ Definition flat_ok (v : jv) : bool :=
   end.
 (* a float keeps its text, everything else is itself *)
 Definition norm_scalar (v : jv) : jv := match v with JF d _ => JF d d | x => x end.
+
+Definition numstart (c : N) : bool := is_ascii_digit c || N.eqb c 45.
+(* every value of the width *)
+Definition width_ok (w : iw) (x : bool * N) : bool :=
+  let (ng, m) := x in
+  match w with
+  | I8 => int_ok (2 ^ 7) ng m | I16 => int_ok (2 ^ 15) ng m | I32 => int_ok (2 ^ 31) ng m | I64 => int_ok (2 ^ 63) ng m | I128 => int_ok (2 ^ 127) ng m
+  | U8 => negb ng && N.ltb m (2 ^ 8) | U16 => negb ng && N.ltb m (2 ^ 16) | U32 => negb ng && N.ltb m (2 ^ 32) | U64 => negb ng && N.ltb m (2 ^ 64) | U128 => negb ng && N.ltb m (2 ^ 128)
+  end.
+
+(* what Rust's Display prints for a finite f64: optional minus, digits, optionally a point and digits - and a text f64::from_str accepts *)
+Definition disp_ok (d : list N) : bool :=
+  match d with
+  | c :: body => numstart c && (let (ds1, r) := take_digits body in match r with [] => true | 46 :: ds2 => forallb is_digit ds2 | _ => false end) && f64_ok d
+  | [] => false
+  end.
+
+(* is the tree inside the domain of one of the round-trip theorems (Props/C19.v)?  printed by the model runner for every case *)
+Definition in_domain (v : jv) : bool :=
+  match v with
+  | JO _ => flat_ok v
+  | JAI w xs => forallb (width_ok w) xs
+  | JAF xs => forallb (fun x => disp_ok (snd x)) xs
+  | JAS xs => forallb str_ok xs
+  | JAB _ => true | JAN _ => true
+  | _ => false
+  end.
